@@ -6,7 +6,9 @@ VERIF = os.path.dirname(os.path.dirname(os.path.abspath(__file__)))
 REPO = os.environ.get('VERIF_REPO', '/repo')
 COQ = os.path.join(VERIF, 'coq')
 OCAML = os.path.join(VERIF, 'ocaml')
-HARNESS = os.path.join(VERIF, 'harness')
+# VERIF_HARNESS_DIR: only for the self-test of the machinery (a copy of harness/ whose path dependency points at a
+# scratch worktree with a seeded change); the registered commands never set it and always build against /repo.
+HARNESS = os.environ.get('VERIF_HARNESS_DIR', os.path.join(VERIF, 'harness'))
 RUN = os.path.join(VERIF, 'run')
 GUARD = 'slotted_egraphs_verif'
 
